@@ -585,3 +585,313 @@ Example C01_unified_nonvacuous :
   (let r := exec f7_cfg (libcore f7_cfg) Run.no_url Run.no_lint 600 (ucompile_real 0 uni_prog) 0 [] None UHost uni_world in
    (fst (fst r), rev (w_log (snd r)))) = (OVal (VStr (U "done")), uni_log).
 Proof. vm_compute. repeat split. Qed.
+
+(* ================================================================================================================================
+   THE DEFINEDNESS SIDE CONDITIONS OF THE FOR RULES (Proofs/C01side.v, C01side2.v, C01sideReal.v).
+
+   C01_unified_simulation_partial is partial by (1) the F7 guard, (2) the definedness side conditions built into the for rules of
+   UExec, (3) [uwf].  This part works on (2).
+
+   [XExec EV chk] / [XLoop EV chk] (Proofs/C01side.v): ALL rules of UExec / ULoop, PLUS the two behaviours of the real lowering
+   that had no rule:
+     - the loop expression's value is NOT an array (Y_ForNotArr): arrayLength fails its argument check, the call wrapper returns
+       the fallback 0 (and logs in debug mode): the body never runs, the value variable is not bound, the values / length
+       temporaries ARE assigned;
+     - the body SHRINKS the array under the index (IX_gone): arrayGet out of range fails, the wrapper returns null (and logs in
+       debug mode): the loop still runs the number of iterations taken at the start, the value variable is null from there on.
+   [chk] switches the remaining side conditions ([is_lib]: arrayLength / arrayGet resolve to the library functions; [Inv3]: after
+   the body the three bookkeeping variables still hold array / length / index): XExec EV true has them, XExec EV false does not
+   ("the expression evaluates; iterate over the live array").  [EV] is the evaluation relation for expressions: [Ev] itself, or
+   [EvQ Q] = Ev restricted to evaluations satisfying Q.
+
+   PROVED
+     C01_unified_simulation_extended_for_rules_partial: the simulation for XExec Ev true (contains UExec:
+       C01_extended_reading_contains_unified).  New premises on the library: the two failing-case contracts (proved for the
+       modelled libraries: C01_extended_premises_hold_for_modelled_libraries).
+     C01_for_side_conditions_automatic: a run of XExec (EvQ (Keeps (protected ..))) false - NO side conditions; every expression
+       evaluation of the run leaves the PROTECTED GLOBALS as they are - is a run of XExec Ev true, provided
+         [no_temp_assign s] (syntactic): per for, its three bookkeeping names are pairwise distinct plain names, the value variable
+           is none of them, and neither an assignment statement nor a nested for (through its bookkeeping names, value or index
+           variable) of its body targets one of them (with the parser's names: the program assigns no __bareScript... name and a
+           nested loop does not reuse / assign the index variable of an enclosing loop);
+         [no_shadow s] (syntactic): nothing in the tree assigns `arrayLength` or `arrayGet`;
+         [LibOK st] (start): the two names resolve to the library functions in the initial scope.
+       PROTECTED GLOBALS = `arrayLength`, `arrayGet`; at TOP LEVEL also the bookkeeping names of the tree's loops.  INSIDE A FUNCTION
+       the bookkeeping variables are locals of the frame, which no callee can touch: nothing is asked about them.
+       This residual premise is about calls inside expressions (systemGlobalSet, function definitions, includes can write any
+       global); it is void for call-free expressions (C01_call_free_expressions_keep_globals) and NECESSARY at top level
+       (C01_for_residual_premise_needed_at_top_level).
+     C01_unified_simulation_total_for_rules_partial: hence the simulation for the reading without side conditions;
+     C01_unified_simulation_total_for_rules_function_scope_partial: its function-scope instance with the premises spelled out.
+   STILL PARTIAL: (1) the F7 guard; (3) uwf; of (2) only: the residual premise above, and a loop value that is a DANGLING array
+   reference (no rule; arrays are never freed, so no run produces one). *)
+From BS Require Import Proofs.C01side Proofs.C01side2 Proofs.C01sideReal.
+
+Theorem C01_unified_simulation_extended_for_rules_partial : forall cfg, c_max cfg = 0%Z ->
+  forall lib url_rel lint_lines, lib_fuel_monotone lib -> lib_count_blind lib ->
+  arrayLength_contract lib -> arrayGet_contract lib ->
+  forall len_msg get_msg, arrayLength_fail_contract lib len_msg -> arrayGet_range_contract lib get_msg ->
+  forall um n s loc w o loc' w',
+  XExec cfg len_msg get_msg (Ev cfg lib url_rel lint_lines um) true (fst (uname n s)) (loc, w) o (loc', w') ->
+  uwf false (fst (uname n s)) = true -> uguard s = true ->
+  forall wm, weq w wm ->
+  exists out wm', scope_result o = Some out /\ weq w' wm' /\
+    Run cfg lib url_rel lint_lines um (ucompile_real n s) 0 loc wm (out, loc', wm').
+Proof. exact extended_simulation. Qed.
+Print Assumptions C01_unified_simulation_extended_for_rules_partial.
+
+(* the same at any position of a larger statement list with unique labels (continuation form, abstract label names) *)
+Theorem C01_unified_simulation_extended_in_context_partial : forall cfg, c_max cfg = 0%Z ->
+  forall lib url_rel lint_lines, lib_fuel_monotone lib ->
+  forall um lab labc len_msg get_msg,
+  (forall e loc w o w' wm, Ev cfg lib url_rel lint_lines um e loc w o w' -> weq w wm ->
+     exists wm', Ev cfg lib url_rel lint_lines um e loc wm o wm' /\ weq w' wm') ->
+  arrayLength_contract lib -> arrayGet_contract lib -> arrayLength_fail_contract lib len_msg -> arrayGet_range_contract lib get_msg ->
+  forall s st o st', XExec cfg len_msg get_msg (Ev cfg lib url_rel lint_lines um) true s st o st' ->
+  forall code ctx cpos n pc wm, NoDup (labels code) -> cont_ok code ctx cpos -> uwf (is_some ctx) s = true -> uguard s = true ->
+    code_at code pc (fst (ucompile lab labc ctx n s)) -> weq (snd st) wm ->
+    exists wm', weq (snd st') wm' /\
+      post cfg lib url_rel lint_lines um code cpos (pc + length (fst (ucompile lab labc ctx n s))) o (fst st') wm' pc (fst st) wm.
+Proof. exact xsim. Qed.
+Print Assumptions C01_unified_simulation_extended_in_context_partial.
+
+(* every run of the reading of C01_unified_simulation_partial is a run of the extended reading with the side conditions on; and
+   dropping the side conditions / enlarging the evaluation relation keeps a run *)
+Theorem C01_extended_reading_contains_unified : forall cfg lib url_rel lint_lines um len_msg get_msg,
+  (forall s st o st', UExec cfg lib url_rel lint_lines um s st o st' ->
+     XExec cfg len_msg get_msg (Ev cfg lib url_rel lint_lines um) true s st o st') /\
+  (forall EV s st o st', XExec cfg len_msg get_msg EV true s st o st' -> XExec cfg len_msg get_msg EV false s st o st') /\
+  (forall (Q : evrel) chk s st o st', XExec cfg len_msg get_msg (EvQ cfg lib url_rel lint_lines um Q) chk s st o st' ->
+     XExec cfg len_msg get_msg (Ev cfg lib url_rel lint_lines um) chk s st o st').
+Proof.
+  intros cfg lib url_rel lint_lines um len_msg get_msg. split; [|split].
+  - exact (UExec_XExec cfg lib url_rel lint_lines um len_msg get_msg).
+  - intros EV. exact (proj1 (XExec_weaken_both cfg len_msg get_msg EV)).
+  - intros Q chk. apply (XExec_mono_both cfg len_msg get_msg). intros e loc w o w1 [He _]. exact He.
+Qed.
+Print Assumptions C01_extended_reading_contains_unified.
+
+(* THE SYNTACTIC CRITERION (abstract names): without side conditions + syntactic criterion + start condition + the run's
+   evaluations keep the protected globals  ==>  with side conditions *)
+Theorem C01_for_side_conditions_automatic : forall cfg lib url_rel lint_lines um len_msg get_msg s st o st',
+  XExec cfg len_msg get_msg (EvQ cfg lib url_rel lint_lines um (Keeps (protected (fscope st) s))) false s st o st' ->
+  no_temp_assign s = true -> no_shadow s = true -> LibOK st ->
+  XExec cfg len_msg get_msg (Ev cfg lib url_rel lint_lines um) true s st o st'.
+Proof. exact side_conditions_automatic. Qed.
+Print Assumptions C01_for_side_conditions_automatic.
+
+Theorem C01_unified_simulation_total_for_rules_partial : forall cfg, c_max cfg = 0%Z ->
+  forall lib url_rel lint_lines, lib_fuel_monotone lib -> lib_count_blind lib ->
+  arrayLength_contract lib -> arrayGet_contract lib ->
+  forall len_msg get_msg, arrayLength_fail_contract lib len_msg -> arrayGet_range_contract lib get_msg ->
+  forall um n s loc w o loc' w',
+  XExec cfg len_msg get_msg (EvQ cfg lib url_rel lint_lines um (Keeps (protected (fscope (loc, w)) (fst (uname n s)))))
+        false (fst (uname n s)) (loc, w) o (loc', w') ->
+  uwf false (fst (uname n s)) = true -> uguard s = true ->
+  no_temp_assign (fst (uname n s)) = true -> no_shadow (fst (uname n s)) = true -> LibOK (loc, w) ->
+  forall wm, weq w wm ->
+  exists out wm', scope_result o = Some out /\ weq w' wm' /\
+    Run cfg lib url_rel lint_lines um (ucompile_real n s) 0 loc wm (out, loc', wm').
+Proof. exact total_for_rules_simulation. Qed.
+Print Assumptions C01_unified_simulation_total_for_rules_partial.
+
+(* inside a function: the only globals the run's evaluations must leave alone are arrayLength and arrayGet *)
+Theorem C01_unified_simulation_total_for_rules_function_scope_partial : forall cfg, c_max cfg = 0%Z ->
+  forall lib url_rel lint_lines, lib_fuel_monotone lib -> lib_count_blind lib ->
+  arrayLength_contract lib -> arrayGet_contract lib ->
+  forall len_msg get_msg, arrayLength_fail_contract lib len_msg -> arrayGet_range_contract lib get_msg ->
+  forall um n s l w o loc' w',
+  XExec cfg len_msg get_msg (EvQ cfg lib url_rel lint_lines um (Keeps [ARRLEN; ARRGET])) false (fst (uname n s)) (Some l, w) o (loc', w') ->
+  uwf false (fst (uname n s)) = true -> uguard s = true ->
+  no_temp_assign (fst (uname n s)) = true -> no_shadow (fst (uname n s)) = true ->
+  env_get ARRLEN l = None -> env_get ARRGET l = None ->
+  env_get ARRLEN (w_globals w) = Some (VFun (FLib ARRLEN)) -> env_get ARRGET (w_globals w) = Some (VFun (FLib ARRGET)) ->
+  forall wm, weq w wm ->
+  exists out wm', scope_result o = Some out /\ weq w' wm' /\
+    Run cfg lib url_rel lint_lines um (ucompile_real n s) 0 (Some l) wm (out, loc', wm').
+Proof. exact total_for_rules_simulation_function_scope. Qed.
+Print Assumptions C01_unified_simulation_total_for_rules_function_scope_partial.
+
+(* an expression without calls does not touch the world: each of its evaluations keeps every global *)
+Theorem C01_call_free_expressions_keep_globals : forall cfg lib url_rel lint_lines um P e loc w o w1,
+  call_free e = true -> Ev cfg lib url_rel lint_lines um e loc w o w1 -> Keeps P e loc w o w1.
+Proof. exact call_free_keeps. Qed.
+Print Assumptions C01_call_free_expressions_keep_globals.
+
+(* all six library premises hold for the modelled library, for the combined library the check runs, and for the example library
+   with arrayPop (non-vacuity of the contracts) *)
+Theorem C01_extended_premises_hold_for_modelled_libraries : forall cfg,
+  (lib_fuel_monotone (libcore cfg) /\ lib_count_blind (libcore cfg) /\ arrayLength_contract (libcore cfg) /\ arrayGet_contract (libcore cfg) /\
+   arrayLength_fail_contract (libcore cfg) (U "args") /\ arrayGet_range_contract (libcore cfg) (U "index")) /\
+  (lib_fuel_monotone (libfull2 cfg) /\ lib_count_blind (libfull2 cfg) /\ arrayLength_contract (libfull2 cfg) /\ arrayGet_contract (libfull2 cfg) /\
+   arrayLength_fail_contract (libfull2 cfg) (U "args") /\ arrayGet_range_contract (libfull2 cfg) (U "index")) /\
+  (lib_fuel_monotone (libpop cfg) /\ lib_count_blind (libpop cfg) /\ arrayLength_contract (libpop cfg) /\ arrayGet_contract (libpop cfg) /\
+   arrayLength_fail_contract (libpop cfg) (U "args") /\ arrayGet_range_contract (libpop cfg) (U "index")).
+Proof.
+  intros cfg. split; [|split].
+  - exact (conj (libcore_fuel_monotone cfg) (conj (libcore_count_blind cfg) (conj (libcore_arrayLength cfg) (conj (libcore_arrayGet cfg)
+             (conj (libcore_arrayLength_fail cfg) (libcore_arrayGet_range cfg)))))).
+  - exact (conj (libfull2_fuel_monotone cfg) (conj (libfull2_count_blind cfg) (conj (libfull2_arrayLength cfg) (conj (libfull2_arrayGet cfg)
+             (conj (libfull2_arrayLength_fail cfg) (libfull2_arrayGet_range cfg)))))).
+  - exact (conj (libpop_fuel_monotone cfg) (conj (libpop_count_blind cfg) (conj (libpop_arrayLength cfg) (conj (libpop_arrayGet cfg)
+             (conj (libpop_arrayLength_fail cfg) (libpop_arrayGet_range cfg)))))).
+Qed.
+Print Assumptions C01_extended_premises_hold_for_modelled_libraries.
+
+(* the extended reading is executable: [xexec qb chk] is a sound interpreter for XExec (EvQ Q) chk when qb decides Q *)
+Theorem C01_extended_structured_interpreter_sound : forall cfg lib url_rel lint_lines um len_msg get_msg (Q : evrel) qb,
+  (forall e loc w o w1, qb e loc w o w1 = true -> Q e loc w o w1) ->
+  forall chk fuel s st o st', xexec cfg lib url_rel lint_lines um len_msg get_msg qb chk fuel s st = Some (o, st') ->
+  XExec cfg len_msg get_msg (EvQ cfg lib url_rel lint_lines um Q) chk s st o st'.
+Proof. exact xexec_sound. Qed.
+Print Assumptions C01_extended_structured_interpreter_sound.
+
+(* non-vacuity 1: a `for` over a NUMBER, debug mode.  All hypotheses of C01_unified_simulation_total_for_rules_partial hold (incl. a run
+   of the reading without side conditions whose evaluations keep the protected globals); the parser model lowers the text to
+   ucompile_real; reading and interpreter agree: the body is skipped, the wrapper's failure line is logged, 'after' is returned,
+   __bareScriptValues0 = 5, __bareScriptLength0 = 0, no index variable, `v` unbound. *)
+Definition dbg_cfg := Run.mkcfg 0 true true.
+Definition side_show (g : env) := (env_get (lbl L_Values 0) g, env_get (lbl L_Length 0) g, env_get (lbl L_Index 0) g, env_get (U "v") g).
+Definition num_text : str := U "for v in 5:
+    systemLog('never')
+endfor
+return 'after'
+".
+Definition num_prog : unistmt :=
+  NSeq (NForS (U "v") [] (uni_lit 5) (NExpr (ECall (U "systemLog") [EStr (U "never")])))
+       (NReturn (Some (EStr (U "after")))).
+Definition num_named : unistmt := fst (uname 0 num_prog).
+Definition num_world : world := world0 (inject_library []).
+Definition num_log : list str := [U "BareScript: Function ""arrayLength"" failed with error: args"].
+Definition num_vars := (Some (VNum (NFlt (Z_to_sf 5))), Some (VNum (NInt 0)), @None value, @None value).
+
+Example C01_for_over_non_array_nonvacuous :
+  uwf false num_named = true /\ uguard num_prog = true /\ no_temp_assign num_named = true /\ no_shadow num_named = true /\
+  is_libb ARRLEN (None, num_world) = true /\ is_libb ARRGET (None, num_world) = true /\
+  check_lowering_n num_text num_prog = true /\
+  option_map (fun r => (fst r, rev (w_log (snd (snd r))), side_show (w_globals (snd (snd r)))))
+    (xexec dbg_cfg (libcore dbg_cfg) Run.no_url Run.no_lint UHost (U "args") (U "index") (keepsb (protected false num_named)) false 100
+           num_named (None, num_world))
+    = Some (SStop (OVal (VStr (U "after"))), num_log, num_vars) /\
+  (let r := exec dbg_cfg (libcore dbg_cfg) Run.no_url Run.no_lint 200 (ucompile_real 0 num_prog) 0 [] None UHost num_world in
+   (fst (fst r), rev (w_log (snd r)), side_show (w_globals (snd r)))) = (OVal (VStr (U "after")), num_log, num_vars).
+Proof. vm_compute. repeat split. Qed.
+
+Example C01_for_over_non_array_run_exists : exists st',
+  XExec dbg_cfg (U "args") (U "index") (EvQ dbg_cfg (libcore dbg_cfg) Run.no_url Run.no_lint UHost (Keeps (protected (fscope (None, num_world)) num_named)))
+        false num_named (None, num_world) (SStop (OVal (VStr (U "after")))) st' /\ LibOK (None, num_world).
+Proof.
+  destruct (xexec dbg_cfg (libcore dbg_cfg) Run.no_url Run.no_lint UHost (U "args") (U "index") (keepsb (protected false num_named)) false 100
+                  num_named (None, num_world)) as [[o st']|] eqn:E; [|vm_compute in E; discriminate E].
+  assert (Ho : o = SStop (OVal (VStr (U "after")))) by (vm_compute in E; injection E as <- _; reflexivity). subst o.
+  exists st'. split.
+  - eapply (xexec_sound dbg_cfg (libcore dbg_cfg) Run.no_url Run.no_lint UHost (U "args") (U "index") _ _ (keepsb_sound _)). exact E.
+  - split; apply is_libb_sound; vm_compute; reflexivity.
+Qed.
+Print Assumptions C01_for_over_non_array_run_exists.
+
+(* non-vacuity 2: a `for` whose body POPS the array it iterates over (library: libcore + arrayPop), debug mode.  arr = [10, 20, 30]:
+   iterations 0 and 1 see 10 and 20; iteration 2 finds no element 2 any more: arrayGet fails, the wrapper logs and returns null;
+   three iterations in all (the length taken at the start); reading and interpreter agree on result, log, bookkeeping variables
+   (values = the array, length = 3, index = 3, v = null) and the heap (the array is empty). *)
+Definition pop_text : str := U "for v in arr:
+    arrayPop(arr)
+    systemLog('v=' + v)
+endfor
+return 'done'
+".
+Definition pop_prog : unistmt :=
+  NSeq (NForS (U "v") [] (EVar (U "arr"))
+          (NSeq (NExpr (ECall (U "arrayPop") [EVar (U "arr")]))
+                (NExpr (ECall (U "systemLog") [EBin (U "+") (EStr (U "v=")) (EVar (U "v"))]))))
+       (NReturn (Some (EStr (U "done")))).
+Definition pop_named : unistmt := fst (uname 0 pop_prog).
+Definition pop_world : world :=
+  upd_arrs (world0 (inject_library [(U "arr", VArr 0)])) [[VNum (NInt 10); VNum (NInt 20); VNum (NInt 30)]].
+Definition pop_log : list str := [U "v=10"; U "v=20"; U "BareScript: Function ""arrayGet"" failed with error: index"; U "v=null"].
+Definition pop_vars := (Some (VArr 0), Some (VNum (NInt 3)), Some (VNum (NInt 3)), Some VNull).
+
+Example C01_for_body_pops_the_array_nonvacuous :
+  uwf false pop_named = true /\ uguard pop_prog = true /\ no_temp_assign pop_named = true /\ no_shadow pop_named = true /\
+  is_libb ARRLEN (None, pop_world) = true /\ is_libb ARRGET (None, pop_world) = true /\
+  check_lowering_n pop_text pop_prog = true /\
+  option_map (fun r => (fst r, rev (w_log (snd (snd r))), side_show (w_globals (snd (snd r))), w_arrs (snd (snd r))))
+    (xexec dbg_cfg (libpop dbg_cfg) Run.no_url Run.no_lint UHost (U "args") (U "index") (keepsb (protected false pop_named)) false 100
+           pop_named (None, pop_world))
+    = Some (SStop (OVal (VStr (U "done"))), pop_log, pop_vars, [[]]) /\
+  (let r := exec dbg_cfg (libpop dbg_cfg) Run.no_url Run.no_lint 200 (ucompile_real 0 pop_prog) 0 [] None UHost pop_world in
+   (fst (fst r), rev (w_log (snd r)), side_show (w_globals (snd r)), w_arrs (snd r))) = (OVal (VStr (U "done")), pop_log, pop_vars, [[]]).
+Proof. vm_compute. repeat split. Qed.
+
+Example C01_for_body_pops_the_array_run_exists : exists st',
+  XExec dbg_cfg (U "args") (U "index") (EvQ dbg_cfg (libpop dbg_cfg) Run.no_url Run.no_lint UHost (Keeps (protected (fscope (None, pop_world)) pop_named)))
+        false pop_named (None, pop_world) (SStop (OVal (VStr (U "done")))) st' /\ LibOK (None, pop_world).
+Proof.
+  destruct (xexec dbg_cfg (libpop dbg_cfg) Run.no_url Run.no_lint UHost (U "args") (U "index") (keepsb (protected false pop_named)) false 100
+                  pop_named (None, pop_world)) as [[o st']|] eqn:E; [|vm_compute in E; discriminate E].
+  assert (Ho : o = SStop (OVal (VStr (U "done")))) by (vm_compute in E; injection E as <- _; reflexivity). subst o.
+  exists st'. split.
+  - eapply (xexec_sound dbg_cfg (libpop dbg_cfg) Run.no_url Run.no_lint UHost (U "args") (U "index") _ _ (keepsb_sound _)). exact E.
+  - split; apply is_libb_sound; vm_compute; reflexivity.
+Qed.
+Print Assumptions C01_for_body_pops_the_array_run_exists.
+
+(* the residual premise is NEEDED at top level: a body that overwrites the loop's index variable through systemGlobalSet.  The
+   syntactic criterion holds (no assignment statement targets a reserved name), the reading without side conditions over the
+   UNRESTRICTED evaluation relation runs three iterations, the interpreter on the lowered code leaves the loop after the first;
+   the restricted reading (evaluations keep the protected globals) has no run: the checker rejects the evaluation. *)
+Definition clob_prog : unistmt :=
+  NSeq (NForS (U "v") [] (EVar (U "arr"))
+          (NSeq (NExpr (ECall (U "systemLog") [EBin (U "+") (EStr (U "v=")) (EVar (U "v"))]))
+                (NExpr (ECall (U "systemGlobalSet") [EStr (lbl L_Index 0); uni_lit 7]))))
+       (NReturn (Some (EStr (U "done")))).
+Definition clob_named : unistmt := fst (uname 0 clob_prog).
+
+Example C01_for_residual_premise_needed_at_top_level :
+  uwf false clob_named = true /\ uguard clob_prog = true /\ no_temp_assign clob_named = true /\ no_shadow clob_named = true /\
+  option_map (fun r => (fst r, rev (w_log (snd (snd r)))))
+    (xexec dbg_cfg (libcore dbg_cfg) Run.no_url Run.no_lint UHost (U "args") (U "index") (fun _ _ _ _ _ => true) false 100
+           clob_named (None, pop_world))
+    = Some (SStop (OVal (VStr (U "done"))), [U "v=10"; U "v=20"; U "v=30"]) /\
+  (let r := exec dbg_cfg (libcore dbg_cfg) Run.no_url Run.no_lint 200 (ucompile_real 0 clob_prog) 0 [] None UHost pop_world in
+   (fst (fst r), rev (w_log (snd r)))) = (OVal (VStr (U "done")), [U "v=10"]) /\
+  xexec dbg_cfg (libcore dbg_cfg) Run.no_url Run.no_lint UHost (U "args") (U "index") (keepsb (protected false clob_named)) false 100
+        clob_named (None, pop_world) = None /\
+  xexec dbg_cfg (libcore dbg_cfg) Run.no_url Run.no_lint UHost (U "args") (U "index") (fun _ _ _ _ _ => true) true 100
+        clob_named (None, pop_world) = None.
+Proof. vm_compute. repeat split. Qed.
+
+(* THE CRITERION ON SOURCE TREES (Proofs/C01side3.v): [user_ok s] = the names the source assigns itself (assignment targets, value
+   variables, the index variables it names: [uassigned]) are not of the reserved form `__bareScript...`; a named index variable is a
+   plain name, differs from its value variable and is not assigned in its loop's body.  Then the named tree satisfies
+   [no_temp_assign] for every start value of the label counter; and [no_shadow] when the source does not assign arrayLength / arrayGet. *)
+From BS Require Import Proofs.C01side3.
+
+Theorem C01_source_criterion_gives_no_temp_assign : forall s n, user_ok s = true ->
+  no_temp_assign (fst (uname n s)) = true /\
+  (~ In ARRLEN (uassigned s) -> ~ In ARRGET (uassigned s) -> no_shadow (fst (uname n s)) = true).
+Proof. intros s n H. split; [exact (user_ok_no_temp_assign s n H)|exact (user_ok_no_shadow s n H)]. Qed.
+Print Assumptions C01_source_criterion_gives_no_temp_assign.
+
+Theorem C01_unified_simulation_total_for_rules_source_criterion_partial : forall cfg, c_max cfg = 0%Z ->
+  forall lib url_rel lint_lines, lib_fuel_monotone lib -> lib_count_blind lib ->
+  arrayLength_contract lib -> arrayGet_contract lib ->
+  forall len_msg get_msg, arrayLength_fail_contract lib len_msg -> arrayGet_range_contract lib get_msg ->
+  forall um n s loc w o loc' w',
+  XExec cfg len_msg get_msg (EvQ cfg lib url_rel lint_lines um (Keeps (protected (fscope (loc, w)) (fst (uname n s)))))
+        false (fst (uname n s)) (loc, w) o (loc', w') ->
+  uwf false (fst (uname n s)) = true -> uguard s = true ->
+  user_ok s = true -> ~ In ARRLEN (uassigned s) -> ~ In ARRGET (uassigned s) -> LibOK (loc, w) ->
+  forall wm, weq w wm ->
+  exists out wm', scope_result o = Some out /\ weq w' wm' /\
+    Run cfg lib url_rel lint_lines um (ucompile_real n s) 0 loc wm (out, loc', wm').
+Proof. exact total_for_rules_simulation_source. Qed.
+Print Assumptions C01_unified_simulation_total_for_rules_source_criterion_partial.
+
+(* non-vacuity: the example programs (a for with a named index variable inside if / while; the for over a number; the popping body)
+   satisfy the source criterion; a loop that names the reserved index variable of its own loop as a target does not *)
+Example C01_source_criterion_nonvacuous :
+  user_ok uni_prog = true /\ user_ok num_prog = true /\ user_ok pop_prog = true /\ user_ok clob_prog = true /\
+  user_ok (NForS (U "v") [] (EVar (U "arr")) (NAssign (lbl L_Index 0) (uni_lit 7))) = false /\
+  user_ok (NForS (U "v") (U "i") (EVar (U "arr")) (NForS (U "w") (U "i") (EVar (U "arr")) NSkip)) = false.
+Proof. vm_compute. repeat split. Qed.
